@@ -24,10 +24,12 @@ from typing import Any, Dict, List, Optional, Tuple
 from .. import core, defx
 
 ALIASES = {"AL_I16": "int16", "AL_F": "double", "AL_C": "char", "AL_U": "unsigned long long", "AL_B": "byte", "AL2": "AL_I16", "AL3": "AL2"}
-NESTED = {"NS1": {"c": "char[3]"}, "NS2": {"a": "int16"}, "NS4": {"a": "int32", "b": "int16"}, "NS8": {"d": "double", "i": "int32"}}
-NMSG = {"NM": {"id": 5900, "fields": {"a": "int32", "b": "int8"}}}
+NESTED = {"NS1": {"c": "char[3]"}, "NS2": {"a": "int16"}, "NS4": {"a": "int32", "b": "int16"}, "NS8": {"d": "double", "i": "int32"},
+          # structs whose whole layout is ONE scalar (a flag, a byte): an array of them is an array of structs in every language
+          "NSC": {"c": "char"}, "NSB": {"b": "byte"}}
+NMSG = {"NM": {"id": 5900, "fields": {"a": "int32", "b": "int8"}}, "NMC": {"id": 5902, "fields": {"c": "char"}}}
 VAR_TARGETS = ["int16", "double", "uint8", "float", "long long", "char"]
-TYPES = defx.NATIVE_NAMES + list(ALIASES) + list(NESTED) + ["NM", "AL_VAR", "AL_VAR2"]
+TYPES = defx.NATIVE_NAMES + list(ALIASES) + list(NESTED) + list(NMSG) + ["AL_VAR", "AL_VAR2"]
 LENGTHS = [None, "1", "2", "3", "K3", "K3 * 2", "K3 - 1"]
 REP = ["char", "int8", "uint16", "int32", "double", "unsigned long", "long long", "AL3", "AL_C", "NS1", "NS4", "NS8", "NM", "byte", "float", "AL_VAR"]
 
@@ -72,14 +74,18 @@ SHAPES = ("single", "chain", "diamond")
 
 def batch_program(seqs, bi: int) -> Tuple[defx.Program, Dict[str, Any]]:
     shape = SHAPES[bi % len(SHAPES)]
-    base = {"constants": {"K3": 3, "KF": 2.5, "KNEG": -7, "KEXP": "K3 * 4 + 1", "KHEX": "0x20", f"KB{bi}": bi,
+    LN = "_LONG_NAME_OF_FORTY_EIGHT_CHARACTERS_AND_SOME_MORE_X"  # names as long as / longer than the emitters' column width
+    base = {"constants": {"N_defines_X": 5, "K" + LN: 48, "K47" + LN[:44]: 47, "K3": 3, "KF": 2.5, "KNEG": -7, "KEXP": "K3 * 4 + 1", "KHEX": "0x20", f"KB{bi}": bi,
                           # floats that need all their digits, computed ones, very small and very large ones
                           "KPI": 3.14159265358979, "KRATE": 30000, "KINV": "1 / KRATE", "KFRAC": 24414.0625, "KTINY": 1.25e-07, "KBIG": 123456789.125, "KTHIRD": "1.0 / 3"},
-            "string_constants": {"SC_A": "alpha", f"SC_B{bi}": "be ta", "SC_APO": "operator's console", "SC_PCT": "100% #1 {x} \\t", "SC_EMPTY": ""},
-            "aliases": {**ALIASES, "AL_VAR": VAR_TARGETS[bi % len(VAR_TARGETS)], "AL_VAR2": "AL_VAR"}, "host_ids": {"HOST_ONE": 11, f"HOST_B{bi}": 100 + bi},
-            "module_ids": {"MOD_ONE": 12, f"MOD_B{bi}": 20 + bi % 70},
+            "string_constants": {"SC" + LN: "long", "SC_A": "alpha", f"SC_B{bi}": "be ta", "SC_APO": "operator's console", "SC_PCT": "100% #1 {x} \\t", "SC_EMPTY": ""},
+            "aliases": {**ALIASES, "AL_VAR": VAR_TARGETS[bi % len(VAR_TARGETS)], "AL_VAR2": "AL_VAR"}, "host_ids": {"ORCHID_PC": 14, "HOST" + LN: 12, "HOST_ONE": 11, f"HOST_B{bi}": 100 + bi},
+            "module_ids": {"PYRAMID_CTRL": 14, "MOD" + LN: 13, "MOD_ONE": 12, f"MOD_B{bi}": 20 + bi % 70},
             "struct_defs": {n: {"fields": dict(f)} for n, f in NESTED.items()},
             "message_defs": {**{n: dict(v) for n, v in NMSG.items()}, "SIG_A": {"id": 5901, "fields": None},
+                             # names that CONTAIN (not start with) the prefixes the emitters use
+                             "CMT_X": {"id": 5905, "fields": {"a": "int32"}}, "EMT_STATUS": {"id": 5906, "fields": None}, "FORMAT_MDF_V": {"id": 5907, "fields": {"v": "int8"}},
+                             "MSG" + LN: {"id": 5903, "fields": {"a": "int32"}}, "SIG" + LN[:45]: {"id": 5904, "fields": None},
                              # user messages with ids the core definitions leave free below 100
                              "LOW_ID_STATUS": {"id": 95, "fields": {"a": "int32", "b": "double"}}, "LOW_ID_SIG": {"id": 3, "fields": None},
                              "LOW_ID_EDGE": {"id": 99, "fields": {"c": "char[8]"}},
@@ -89,7 +95,7 @@ def batch_program(seqs, bi: int) -> Tuple[defx.Program, Dict[str, Any]]:
     for k, seq in enumerate(seqs):
         # every fifth definition spells one field name with a leading underscore (reserved / spare fields are commonly named so)
         fields = {(f"_f{i}" if (k % 5 == 0 and i == min(1, len(seq) - 1)) else f"f{i}"): ftext(t, L) for i, (t, L) in enumerate(seq)}
-        uses_msg = any(t == "NM" for t, _ in seq)
+        uses_msg = any(t in NMSG for t, _ in seq)
         as_msg = uses_msg or k % 2 == 1
         part = parts[k % 3 if shape != "single" else 0]
         name = f"D{k}"
@@ -215,15 +221,45 @@ def num(v):
 def check_batch(args) -> Dict[str, Any]:
     bi, seqs = args[:2]
     rebuild = len(args) > 2 and args[2] == "rebuild"
+    named = args[3] if len(args) > 3 and args[2] == "named" else None
     problems: List[Dict[str, Any]] = []
     stats = {"definitions": 0, "field_comparisons": 0, "id_comparisons": 0, "padded": 0}
     d = core.scratch_dir("c04")
 
     def bad(kind, **kw):
+        if named and named.startswith("shared:") and kw.get("lang") == "python" and kw.get("name") == "GATEWAY":
+            # one root cause whatever the other table is: the Python module has ONE global per name (host ids carry no prefix there)
+            kw = dict(kw, seen_as=kind, other_table=named.split(":")[1])
+            kind = "python-name-bound-twice"
         problems.append({"kind": kind, "batch": bi, **({"rebuild": True} if rebuild else {}), **kw})
 
     try:
-        prog, meta = batch_program(seqs, bi)
+        if named and named.startswith("shared:"):
+            # one name in two TABLES of one file (the parser keeps host / module ids apart from constants, strings, aliases and
+            # structs): every output keeps both values apart
+            kind = named.split(":")[1]
+            secs = {"host_ids": {"GATEWAY": 20}, "module_ids": {"GATEWAY": 30}, "message_defs": {"M_SHARED": {"id": 6000, "fields": {"a": "int32", "b": "int16[3]"}}}}
+            if kind == "constant":
+                secs["constants"] = {"GATEWAY": 5}
+            elif kind == "string":
+                secs["string_constants"] = {"GATEWAY": "gw"}
+            elif kind == "alias":
+                secs["aliases"] = {"GATEWAY": "int16"}
+                secs["message_defs"]["M_SHARED"]["fields"]["g"] = "GATEWAY"
+            else:
+                secs["struct_defs"] = {"GATEWAY": {"fields": {"x": "int32"}}}
+                secs["message_defs"]["M_SHARED"]["fields"]["g"] = "GATEWAY"
+            prog = defx.Program({"root.yaml": secs})
+            meta = {}
+        elif named:
+            # a field carries a name the generated classes use themselves: the file is either refused, or - when accepted - described
+            # identically by all outputs like any other
+            prog = defx.Program({"root.yaml": {"struct_defs": {"SB_NAMED": {"fields": {"a": "int8", named: "double"}}},
+                                               "message_defs": {"BLOCK_INFO": {"id": 6000, "fields": {"serial": "int32", named: "int32", "tail": "double"}},
+                                                                "BLOCK_REPORT": {"id": 6001, "fields": {named: "int16", "x": "int8", "s": "SB_NAMED"}}}}})
+            meta = {}
+        else:
+            prog, meta = batch_program(seqs, bi)
         try:
             if rebuild:
                 # an earlier build of the same root file sits in the output directory; then only IMPORTED files are edited (other
@@ -245,6 +281,9 @@ def check_batch(args) -> Dict[str, Any]:
         except core.HarnessError:
             raise
         except Exception as e:
+            if named:
+                stats["names_refused"] = 1
+                return {"problems": [], "stats": stats}
             return {"problems": [{"kind": "batch-rejected", "exc": f"{type(e).__name__}: {str(e)[:300]}", "batch": bi, **({"rebuild": True} if rebuild else {})}], "stats": stats}
         p = defx.parse_model(paths["root"])
         sp = defx.sig_parser(p)
@@ -382,7 +421,9 @@ def run(tier: str) -> int:
     batches = [(i, b) for i, b in enumerate(core.chunks(core.shuffled(seqs, "c04"), 250))]
     multi = [b for b in batches if SHAPES[b[0] % len(SHAPES)] != "single"]
     rebuilds = [(i, b, "rebuild") for i, b in (multi[:4] if tier == "quick" else multi)]
-    res = core.pmap(check_batch, batches + rebuilds)
+    names = [(9100 + i, [], "named", "shared:" + k) for i, k in enumerate(("constant", "string", "alias", "struct"))]
+    names += [(9000 + i, [], "named", n) for i, n in enumerate(("type_id", "type_name", "type_hash", "type_source", "type_def", "type_size", "hexdump", "size_type"))]
+    res = core.pmap(check_batch, batches + rebuilds + names)
     core.close_pool()
     totals: Dict[str, int] = {}
     for r in res:
